@@ -269,7 +269,7 @@ def do_xmlattr(
     contains a space, ``/`` solidus, ``>`` greater-than sign, or ``=`` equals
     sign, this fails with a ``ValueError``. Regardless of this, user input
     should never be used as keys to this filter, or must be separately validated
-    first.
+    first. An empty key fails with a ``ValueError`` as well.
 
     .. sourcecode:: html+jinja
 
@@ -301,6 +301,9 @@ def do_xmlattr(
     for key, value in d.items():
         if value is None or isinstance(value, Undefined):
             continue
+
+        if not key:
+            raise ValueError("Empty attribute name.")
 
         if _attr_key_re.search(key) is not None:
             raise ValueError(f"Invalid character in attribute name: {key!r}")
